@@ -55,11 +55,11 @@ CLAIMS = {
              "(C02_deferred_kill_ownership, C02_late_teardown_own_only); the real-binary scenario 'KILL of a connection stuck writing to a client that does not read' exhibits that schedule on every run.",
         design_ref="5 (C02)"),
     "C04": dict(
-        technique="Coq proof (membership symmetry and rank-list clauses of the global invariant in every reachable world; fold-to-filter characterisation of the NAMES and WHOIS texts; single-operation effect lemmas) + differential traces with a three-view (NAMES/WHO/WHOIS) agreement oracle, a KICK/JOIN/PART/NICK announcement oracle and list-KICK histories",
+        technique="Coq proof (membership symmetry and rank-list clauses of the global invariant in every reachable world; membership frame through all 41 commands and every event: sets change only by own JOIN / own PART / KICK; fold-to-filter characterisation of the NAMES and WHOIS texts; single-operation effect lemmas) + differential traces with a three-view (NAMES/WHO/WHOIS) agreement oracle, a KICK/JOIN/PART/NICK announcement oracle and list-KICK histories",
         text="Theorems (props/C04.v): in every reachable world the per-user and per-channel membership tables are the same relation, the five rank lists of every channel are exactly the members "
              "whose rank flag is set, and every member is a registered user owned by a live connection; the 353 lines of NAMES carry exactly the members the viewer may see, each once, with its rank "
              "prefix (sound and complete: chunking loses and duplicates nothing), and nothing for a secret channel the viewer is not on; the 319 lines of WHOIS carry exactly the non-secret channels of "
-             "the user's own membership set with the rank prefix; the 352 lines of WHO #channel carry one entry per member with the rank prefix (C04_who_text); the views read one relation (C04_views_agree); PART is announced, one copy each, to every member of the channel as it was before the departure, the leaver included (C04_part_announced); an accepted KICK gives one copy of the KICK line to every member that is left and one to the victim (C04_kick_announced); the output of JOIN is the planning refusals followed by the announcements of the accepted entries in order, each telling the joiner first (JOIN line, topic, NAMES) and then every other member once, refused entries announcing nothing (C04_join_output, C04_join_announced, C04_join_refused_silent). The effects of JOIN/PART/KICK/NICK/teardown on that relation are the theorems "
+             "the user's own membership set with the rank prefix; the 352 lines of WHO #channel carry one entry per member with the rank prefix (C04_who_text); the views read one relation (C04_views_agree); PART is announced, one copy each, to every member of the channel as it was before the departure, the leaver included (C04_part_announced); an accepted KICK gives one copy of the KICK line to every member that is left and one to the victim (C04_kick_announced); the output of JOIN is the planning refusals followed by the announcements of the accepted entries in order, each telling the joiner first (JOIN line, topic, NAMES) and then every other member once, refused entries announcing nothing (C04_join_output, C04_join_announced, C04_join_refused_silent). FOLLOWS THE HISTORY, over every event of every connection in every world satisfying the invariant (C04_membership_follows_commands, with the membership frame proved through all 41 commands, registration, teardown and KILL delivery): a user record found after a step carries the membership set of a record of the same connection before it, unless the event is a line of a registered connection whose command is JOIN (only the sender's set changes and it only grows), PART (only the sender's, it only shrinks) or KICK (a set loses at most the named channel), or the record was just created by a completed registration and is on no channel; hence a membership appears only through the user's own JOIN (C04_gained_only_by_own_join) and a user who stays connected loses one only through its own PART or a KICK naming that channel (C04_lost_only_by_part_or_kick). The detailed effects of JOIN/PART/KICK/NICK/teardown on that relation are the theorems "
              "of C07, C09, C15, C16 and C06. That the JOIN/KICK/NICK announcements together with the NAMES reply reconstruct the roster is decided per run by the oracles on real traces (L2).",
         design_ref="5 (C04)",
         note="Partial at proof level: the announcement-derived rosters are checked by differential execution, not proved."),
